@@ -155,7 +155,10 @@ def run(ctx):
         b = inst.body
         sg = [c for c in nonforeign_calls(inst) if c.fn is inst and c.is_("metrics::recorder::set_global_recorder")]
         io = [c for c in nonforeign_calls(inst) if c.fn is inst and c.is_("RecoveryHandle<R>::into_inner")]
-        ok = len(sg) == 1 and len(io) == 1 and any(lab == "Err" and sym_is_call(dd, "set_global_recorder") for dd, lab in gates(b, io[0].bb))
+        from props.common import result_flow
+
+        # the recorder is taken back exactly where the installation is known to have failed, however the result is inspected
+        ok = len(sg) == 1 and len(io) == 1 and result_flow(inst, "metrics::recorder::set_global_recorder", "set_global_recorder").at(io[0].bb) == "N"
         if ok:
             sy = Sym(inst)
             wrapped = strip_sym(arg_syms(sg[0])[0])
